@@ -6,11 +6,9 @@ use crate::scn_incentive::{default_users, FeeKind, IncRoot, IncScn};
 
 pub fn scenario(tier: &str) -> IncScn {
     let mut roots = vec![];
-    let kinds: Vec<FeeKind> = if tier == "quick" {
-        vec![FeeKind::NativeSame, FeeKind::NativeDiff, FeeKind::Cw20Same, FeeKind::Cw20Diff]
-    } else {
-        vec![FeeKind::NativeSame, FeeKind::NativeDiff, FeeKind::Cw20Same, FeeKind::Cw20Diff, FeeKind::NativeFeeCw20Reward]
-    };
+    // (all five fee/reward combinations in both tiers: the overpaid-native-fee defect fixed in 7aebf83 only shows with a
+    // native fee and a cw20 reward)
+    let kinds: Vec<FeeKind> = vec![FeeKind::NativeSame, FeeKind::NativeDiff, FeeKind::Cw20Same, FeeKind::Cw20Diff, FeeKind::NativeFeeCw20Reward];
     for k in kinds {
         roots.push(IncRoot { label: format!("{:?}/fresh", k), lp_native: true, fee_kind: k, prefix: 1, standing_allowance: false });
         if tier != "quick" || matches!(k, FeeKind::NativeDiff | FeeKind::Cw20Same) {
